@@ -975,15 +975,17 @@ func TestCheck(t *testing.T) {
 		"punycode and UTF-8 sub-domain labels, each spelled plain / upper case / trailing dot / :port / upper+port / dot+port, plus no Host and an IPv6 literal; label-wise reference. "+
 		"method list family: /api with the first K=0..7 of 7 methods (inline, named matcher, split), /api/orders (4 method variants), /api/orders/x, /api/users (3 variants, optional host) in 3 orders "+
 		"(quick: 2 variants per child); on one boot a walk through the request alphabet path(6) x method(6..7) x host(1..2) in which every ordered pair of requests occurs as consecutive requests; "+
-		"every response compared with the stateless reference. Side pass (race_test.go, -race build): the same method family, one 3-route configuration per match shape and the host lists, "+
+		"every response compared with the stateless reference; then every ordered pair (A, B) once more with B served completely inside A's first Header / WriteHeader / Write call on its ResponseWriter "+
+		"(deterministic overlap at the writer calls): status and Allow of A and of every nested B and the stored routes compared with the reference. Side pass (race_test.go, -race build): the same method family, one 3-route configuration per match shape and the host lists, "+
 		"served by 8 overlapping goroutines in phases 405-only / 404-only / 202-only / mixed; only the race detector judges. "+
 		"distinct_nontrivial counts (match shape, observed request value, reference verdict) classes, (route path, request path, verdict) classes and "+
 		"(channel tuple, winner position, status) classes reached by the reference")
 	r.Assume("encoded slashes (%2F) and other percent-encoded path bytes are not in the alphabet (documentation does not define them)")
 	r.Assume("request methods are upper case; route auth, rate limits and adaptive backpressure are off (C08/C12 cover them), so a resolved request always ends in 202")
 	r.Assume("a pull route stores target \"pull\" (DESIGN.md Admin API example), a deliver route stores its deliver URL")
-	r.Assume("overlapping requests are decided by the free-running -race side pass only (a data race is reported; an unsynchronised sharing that the detector does not flag within its budget, " +
-		"or a wrong answer under overlap that is not a data race, is not covered); request sequences are covered to the depth of all ordered pairs of consecutive requests of the method list family")
+	r.Assume("overlapping requests: a second request is interleaved deterministically only at the first request's ResponseWriter calls (method list family, all ordered pairs); an overlap between two " +
+		"instructions without a writer call in between is left to the free-running -race side pass, which reports data races only and within a wall budget; " +
+		"request sequences are covered to the depth of all ordered pairs of consecutive requests of the method list family")
 	r.Assume("host family: raw UTF-8 and underscore labels are sent as they are (net/http's server would reject some of them before the handler; the resolver must still not match them to a foreign pattern); " +
 		"a Host with an empty label in front of the domain (\".d\") and patterns written with a port or a trailing dot are not in the alphabet (undefined by the docs)")
 	r.Assume("405 needs an inbound route whose criteria other than the method all hold; Allow is compared as a set with the union of the methods of those routes (POST when none)")
